@@ -1,3 +1,4 @@
+import IpcModel.Inproc
 import IpcModel.Timed
 import IpcModel.GenTimed
 /-!
@@ -85,5 +86,14 @@ example : (callV true ⟨[(7, true)], false, false⟩ .nonblocking false true).2
 /-- sensitivity: the variant that forgets to clear the flag poisons a later blocking receive (it would answer `empty`, an
 error, instead of blocking) -/
 example : (Timed.recvmsg ⟨[], true, true⟩).1 = .empty := by decide
+
+/-- **C10_inproc** — the in-process transport's three receive flavours (regenerated call and error arms): each makes the crossbeam
+call of its own kind (`recv` / `try_recv` / `recv_timeout(duration)`, so the polling ones cannot block beyond their budget),
+returns a queued message as a message, and reports "empty" exactly for empty / timed out. -/
+theorem C10_inproc (c : Gen.XCall) (x : Inproc.XB) (h : Inproc.possible c x = true) :
+    Inproc.callOf c = c ∧ (x = .msg → Inproc.codeAnswer c x = .message) ∧
+    (Inproc.codeAnswer c x = .empty ↔ (x = .empty ∨ x = .timeout)) := by
+  refine ⟨(Inproc.code_answers c x h).2, ?_, Inproc.empty_iff c x h⟩
+  intro hx; rw [(Inproc.code_answers c x h).1, hx]; rfl
 
 end C10
